@@ -65,7 +65,7 @@ Definition doc_sites : list site := [
     SortedFirstErr;
   (* inverts a map into a map *)
   mkSite "sylt-compiler/src/typechecker.rs" "new" "namespace_to_file"
-    "file_to_namespace: namespace_to_file .iter() .map(|(a, b)| (b.clone(), a.clone())) .collect(), }"
+    "file_to_namespace: namespace_to_file .iter() .map(|(a, b)| (b.clone(), a.clone())) .collect(), type_names: BTreeSet::new(), }"
     CollectMap;
   (* Type::Tuple fields is a Vec *)
   mkSite "sylt-compiler/src/typechecker.rs" "inner_resolve_type" "fields"
